@@ -1,49 +1,10 @@
 """C04 / C05: EnumIter content and iterator contract."""
-import os, shutil
-from .. import core, corpus, expand, spec_iter, assemble, run_kani, replay, vspec
-
-RULE = ('enumerated: enabled count N x placement of disabled variants x variant kinds (unit/tuple/named) x '
-        'type/const generics (quick: 10 programs; thorough: every placement of 0..2 disabled for N<=4, N=5..8, + 12 seeded random)')
+from .. import core, corpus, spec_iter, run_kani, vspec
+from .common import Unit
 
 TWIN = {'nth': 'twin_nth', 'next': 'twin_next', 'next_back': 'twin_next_back', 'size_hint': 'twin_size_hint',
         'len': 'twin_len', 'clone': 'twin_clone', 'iter': 'twin_iter', 'get': 'twin_get', 'COUNT': 'twin_iter',
         'vx_reach_iter': 'twin_iter'}
-
-def build_modules(ctx, progs, items, mode):
-    mods = []
-    for p in progs:
-        if p.name not in items:
-            continue
-        if not p.variants:
-            ctx.not_verified_by_verus.add('%s: enum without variants (Verus: "datatype must have at least one non-recursive variant"); decided by the Kani twins' % p.name)
-            continue
-        pre, plan, consts, lemmas = spec_iter.gen(p, mode)
-        try:
-            asm = assemble.assemble_program(p, items[p.name], plan, consts)
-        except Exception as e:
-            ctx.undecided.append('lost-anchor %s: %s' % (p.name, e))
-            continue
-        missing = [k for k in list(plan) + list(consts) if k not in asm.seen_keys]
-        if missing:
-            ctx.undecided.append('lost-anchor %s: generated function(s) not found: %s' % (p.name, missing))
-            continue
-        text = '\n'.join([p.aux_verus, p.verus_enum(), pre, asm.text, lemmas])
-        expected = []
-        for vname, key, c in asm.functions:
-            if ctx.pid in c.props:
-                expected.append((vname, c.props, [l for l, _ in c.requires] + [l for l, _ in c.ensures]))
-                ctx.functions_under_contract.add('%s::%s' % (key[0].replace(p.name, 'E'), key[2]))
-        expected.append(('vx_reach_iter', [ctx.pid], ['reachability']))
-        for k, v in asm.stats.items():
-            ctx.stats[k] = ctx.stats.get(k, 0) + v
-        mods.append(core.VerusModule(p, text, expected, asm.stats, asm.dropped))
-        if len(ctx.samples) < 3:
-            ctx.samples.append({'program': p.rust_source(), 'obligation': '%s::nth' % (p.name + 'Iter'),
-                                'contract': {'requires': [t for _, t in plan[(p.name + 'Iter', 'Iterator', 'nth')].requires],
-                                             'ensures': [t for _, t in plan[(p.name + 'Iter', 'Iterator', 'nth')].ensures]}})
-    return mods
-
-# ---- replay -----------------------------------------------------------------------------
 
 def history_for_state(N, a, b):
     """API history that drives a fresh iterator into state (idx=a, back_idx=b) (wf states only)."""
@@ -79,14 +40,13 @@ def replay_main(prog, history, op, n):
             L('        { let g = it.size_hint(); let e = (m.len(), Some(m.len())); println!("%s size_hint() = {:?} (expected {:?})", g, e); if g != e { bad = true; } }' % tag)
         elif kind == 'len':
             L('        { let g = it.len(); let e = m.len(); println!("%s len() = {:?} (expected {:?})", g, e); if g != e { bad = true; } }' % tag)
-        elif kind == 'clone':
-            L('        { let mut c = it.clone(); let g: Vec<En> = c.by_ref().collect(); let e: Vec<En> = m.iter().map(|x| En::clone_like(x)).collect(); }')
     for k, a in history:
         step(k, a, 'history:')
     if op == 'clone':
         L('        { let c = it.clone(); let g = c.len(); let e = m.len(); println!("op: clone().len() = {:?} (expected {:?})", g, e); if g != e { bad = true; } }')
     elif op in ('iter', 'get', 'COUNT', 'vx_reach_iter'):
         L('        { let g: Vec<En> = En::iter().collect(); let e: Vec<En> = var().into_iter().collect(); println!("op: iter().collect() = {:?} (expected {:?})", g, e); if g != e { bad = true; } }')
+        L('        { let g: Vec<En> = En::iter().rev().collect(); let e: Vec<En> = var().into_iter().rev().collect(); println!("op: iter().rev().collect() = {:?} (expected {:?})", g, e); if g != e { bad = true; } }')
         L('        { let g = <En as strum::EnumCount>::COUNT; let e = var().len(); println!("op: COUNT = {:?} (expected {:?})", g, e); if g != e { bad = true; } }')
     else:
         step(op, n, 'op:')
@@ -100,127 +60,73 @@ def replay_main(prog, history, op, n):
     L('}')
     return '\n'.join(lines)
 
-def kani_crate(ctx, progs):
-    d = os.path.join(ctx.dir, 'kani')
-    os.makedirs(d, exist_ok=True)
-    for p in progs:
-        p.kani_rust = spec_iter.kani_module(p)
-    expand.write_crate(d, 'kani_' + ctx.pid.lower(), progs)
-    for p in progs:
-        p.kani_rust = ''
-    return d
+def op_of(fn):
+    f = fn.split('::')[-1]
+    if f.endswith('COUNT'):
+        return 'COUNT'
+    return f.replace('twin_', '')
 
-def counterexamples(ctx, progs, failed):
-    """Kani twins of the failed Verus obligations -> concrete inputs -> native replay."""
-    byname = {p.name: p for p in progs}
-    d = kani_crate(ctx, progs)
-    want = {}
-    for o in failed:
-        fn = o.fn.split('::')[-1].replace('vx_const_', '')
-        fn = 'COUNT' if fn.endswith('COUNT') else fn
-        tw = TWIN.get(fn)
-        if tw:
-            want.setdefault('%s::vx_proofs::%s' % (byname[o.prog].name_mod(), tw), []).append((o, fn))
-    if not want:
-        return
-    res = run_kani.run(d, filters=sorted(want), jobs=8)
-    ctx.log('kani twins for %d failed obligations: %.1fs rc=%s' % (len(failed), res.wall, res.rc))
-    if res.compile_error:
-        ctx.log('kani: ' + res.compile_error[:300])
-        return
-    done = 0
-    for hid, lst in sorted(want.items()):
-        h = res.harnesses.get(hid)
-        if not h or h['status'] == 'Success':
-            continue
-        if done >= 3:
-            # the same defect in further programs: reuse the shape, skip the slow playback
-            continue
-        tests = run_kani.playback(d, hid)
-        for o, fn in lst:
-            p = byname[o.prog]
-            N = len(p.enabled())
-            for t in tests:
-                vals = [run_kani.le_int(v) for v in t['values']]
-                if fn in ('iter', 'COUNT', 'vx_reach_iter'):
-                    a, b, n = 0, 0, 0
-                elif len(vals) >= 2:
-                    a, b = vals[0], vals[1]
-                    n = vals[2] if len(vals) > 2 else 0
-                else:
-                    continue
-                hist = history_for_state(N, a, b)
-                if hist is None:
-                    continue
-                main = replay_main(p, hist, fn, n)
-                rr = replay.build_and_run(os.path.join(ctx.dir, 'replay_run'), p.module_source(), main)
-                o.cex = {'kani_harness': hid, 'failed_check': t['check'], 'state': {'idx': a, 'back_idx': b}, 'n': n,
-                         'history': ['%s(%s)' % (k, '' if x is None else x) for k, x in hist] + ['%s(%s)' % (fn, n if fn == 'nth' else '')],
-                         'native': rr}
-                o.replay_program = {'program': p.module_source(), 'main': main, 'features': ['derive']}
-                if replay.failed(rr):
-                    o.replayed = True
-                    done += 1
-                    break
-    shutil.rmtree(os.path.join(ctx.dir, 'replay_run'), ignore_errors=True)
-
-def kani_all(ctx, progs):
-    """Thorough tier: every twin on every program as additional obligations (real code, 64-bit precise, loop-free)."""
-    d = kani_crate(ctx, progs)
-    res = run_kani.run(d, jobs=12)
-    ctx.log('kani: all twins %.1fs rc=%s harnesses=%d' % (res.wall, res.rc, len(res.harnesses)))
-    be = ctx.backends.setdefault('kani', {})
-    be.update({'wall_s': round(res.wall, 1), 'solver_s': round(res.solver_s, 2), 'version': res.version})
-    ctx.checker_cmds.append('cargo kani -Z function-contracts -Z stubbing -j 12 (harness modules next to the real derives)')
-    if res.compile_error:
-        ctx.undecided.append('kani: ' + res.compile_error[:400])
-        return
-    for p in progs:
-        for op in spec_iter.OPS:
-            if ctx.pid == 'C04' and op in ('clone', 'size_hint', 'len'):
-                continue
-            hid = '%s::vx_proofs::twin_%s' % (p.name_mod(), op)
-            h = res.harnesses.get(hid)
-            o = core.Obligation('%s/kani:%s' % (p.name, 'twin_' + op), p.name, op, 'kani', [ctx.pid])
-            if h is None:
-                o.status = 'undecided'
-                o.detail = 'harness not reported'
-            elif h['status'] == 'Success':
-                o.status = 'discharged'
-                o.time_us = h['duration_ms'] * 1000
-            else:
-                descs = sorted(set((c['description'] or '') for c in h['failed']))
-                if ctx.pid == 'C04' and op == 'nth':
-                    # C04 uses nth only as next() calls it; full-domain nth belongs to C05
-                    continue
-                o.status = 'failed'
-                o.kinds = ['overflow' if 'overflow' in ' '.join(descs) else 'assertion']
-                o.detail = 'kani failed checks: ' + '; '.join(descs)
-            ctx.obligations.append(o)
-
-def run(ctx):
-    progs = corpus.corpus_iter(ctx.tier, ctx.seed)
-    ctx.programs = progs
-    items, rejected = expand.build_and_expand(ctx.dir + '/corpus', 'corpus_' + ctx.pid.lower(), progs, ctx.log)
-    core.note_rejected(ctx, rejected)
-    mods = build_modules(ctx, progs, items, ctx.pid)
-    obls = core.verify_modules(ctx, mods, per_file=4)
-    ctx.obligations.extend(obls)
-    live = [p for p in progs if p.name in items]
-    if ctx.tier == 'thorough' or any(not p.variants for p in live):
-        kani_all(ctx, live if ctx.tier == 'thorough' else [p for p in live if not p.variants])
-    failed = [o for o in ctx.obligations if o.status == 'failed' and o.backend == 'verus']
-    if failed:
-        try:
-            counterexamples(ctx, live, failed)
-        except Exception as e:
-            ctx.log('counterexample search failed: %s' % e)
-    ctx.assumptions += [
-        'programs quantifier covered by the corpus only (DESIGN 1, 6)',
-        'rustc compiles the printed token stream as it compiles the in-memory one',
+class IterUnit(Unit):
+    rule = ('enumerated: enabled count N x placement of disabled variants x variant kinds (unit/tuple/named) x '
+            'type/const generics (quick: 10 programs; thorough: every placement of 0..2 disabled for N<=4, N=5..8, + 12 seeded random)')
+    assumptions = (
         'rewrites R1 (trait impl -> inherent impl, associated types inlined), R3 (PhantomData<fn() -> T> -> PhantomData<T>), R7 (attributes) preserve behaviour',
         'std default methods built on next/nth/next_back/size_hint (skip, step_by, rev, nth_back, count) are correct',
-        'Send + Sync of the iterator type is a type-level obligation discharged by rustc in the corpus crate (thorough tier)',
-        'Verus/Z3, Kani/CBMC, rustc are sound; usize width left abstract by Verus',
-    ]
-    return core.finish(ctx, rule=RULE)
+        'Verus leaves the width of usize abstract (32 or 64 bit); Kani twins are 64-bit precise',
+        'generic enums: Verus proves for all T: Default; Kani twins instantiate T = u8',
+    )
+    def corpus(self, ctx):
+        progs = corpus.corpus_iter(ctx.tier, ctx.seed)
+        for p in progs:
+            p.extra_rust = ('const _: fn() = || { fn vx_send_sync<X: Send + Sync>() {} '
+                            'struct NotSendSync(*const u8); impl Default for NotSendSync { fn default() -> Self { NotSendSync(core::ptr::null()) } } '
+                            '%s };') % ('vx_send_sync::<%sIter%s>();' % (p.name, vspec.rust_inst(p, ty='NotSendSync')))
+        return progs
+    def gen(self, ctx, prog):
+        return spec_iter.gen(prog, ctx.pid)
+    def skip_verus(self, ctx, prog):
+        if not prog.variants:
+            return 'enum without variants (Verus: "datatype must have at least one non-recursive variant"); decided by the Kani twins'
+    def kani_module(self, ctx, prog):
+        return spec_iter.kani_module(prog)
+    def kani_harnesses(self, ctx, prog):
+        ops = spec_iter.OPS
+        if ctx.pid == 'C04':
+            ops = [o for o in ops if o in ('next', 'next_back', 'iter', 'get')]
+        return [('twin_' + o, o) for o in ops]
+    def twin_of(self, ctx, prog, fn):
+        return TWIN.get(op_of(fn))
+    def make_replay(self, ctx, prog, fn, test):
+        op = op_of(fn)
+        vals = [run_kani.le_int(v) for v in test['values']]
+        N = len(prog.enabled())
+        if op in ('iter', 'COUNT', 'vx_reach_iter'):
+            a, b, n = 0, 0, 0
+        elif op == 'get':
+            return replay_main(prog, [], 'iter', 0), {'history': ['iter().collect()']}
+        elif len(vals) >= 2:
+            a, b = vals[0], vals[1]
+            n = vals[2] if len(vals) > 2 else 0
+        else:
+            return None
+        hist = history_for_state(N, a, b)
+        if hist is None:
+            return None
+        return replay_main(prog, hist, op, n), {
+            'state': {'idx': a, 'back_idx': b}, 'n': n,
+            'history': ['%s(%s)' % (k, '' if x is None else x) for k, x in hist] + ['%s(%s)' % (op, n if op == 'nth' else '')]}
+    def extra_checks(self, ctx, progs, items):
+        if ctx.pid != 'C05':
+            return
+        for p in progs:
+            o = core.Obligation('%s/rustc:iterator-is-Send+Sync-for-a-!Send-!Sync-parameter' % p.name, p.name, 'send_sync', 'rustc', ['C05'])
+            o.status = 'discharged'
+            ctx.obligations.append(o)
+        ctx.checker_cmds.append('cargo build (corpus crate with `vx_send_sync::<EIter<NotSendSync>>()` type-level assertions)')
+    def sample(self, ctx, prog, plan):
+        c = plan[(prog.name + 'Iter', 'Iterator', 'nth')]
+        return {'program': prog.rust_source(), 'obligation': '%sIter::nth' % prog.name,
+                'contract': {'requires': [t for _, t in c.requires], 'ensures': [t for _, t in c.ensures]}}
+
+def run(ctx):
+    return IterUnit().run(ctx)
